@@ -2,7 +2,7 @@
 import z3
 
 from .values import (I, B, USort, StrSort, Ty, V, VInt, VBool, VNone, VStr, VU, VObj, VList, VTuple, VOpt, VSeq,
-                     VIter, Unsupported, comp_sorts, to_terms, from_terms, fresh_terms, fresh_name, coerce,
+                     VIter, VMap, VRow, VKeys, Unsupported, comp_sorts, to_terms, from_terms, fresh_terms, fresh_name, coerce,
                      class_tag, cls_of)
 from .contracts import FIELDS
 from . import source
@@ -89,6 +89,8 @@ def load_field(st, objt, cls, fname):
     dc, ty = field_decl(cls, fname)
     if ty is None:
         raise Unsupported("undeclared field %s.%s" % (cls, fname))
+    if ty.k == "map":
+        return VMap(dc + "." + fname)
     ts = []
     for i, s in enumerate(comp_sorts(ty)):
         ts.append(z3.Select(harr(st, "%s.%s#%d" % (dc, fname, i), s), objt))
@@ -310,3 +312,57 @@ def fresh_value(st, ty, base):
     if ty.k == "seq":
         st.assume(v.n >= 0)
     return v
+
+
+# ------------------------------------------------------------------ record maps (string-keyed rows of string-keyed fields)
+def _map_arr(st, m, what, sort):
+    key = "map:%s.%s" % (m.name, what)
+    a = st.heap.get(key)
+    if a is None:
+        a = z3.Const("H0!" + key, z3.ArraySort(StrSort, sort))
+        st.heap[key] = a
+    return key, a
+
+
+def map_has_row(st, m, keyt):
+    return z3.Select(_map_arr(st, m, "@row", B)[1], keyt)
+
+
+def map_has_field(st, row, fld):
+    return z3.Select(_map_arr(st, row.m, "@has." + fld, B)[1], row.key)
+
+
+def map_field_sort(m, fld):
+    kind = VMap.FIELDS.get(m.name, {}).get(fld)
+    if kind is None:
+        raise Unsupported("record map %s has no declared field %r" % (m.name, fld))
+    return I if kind == "int" else StrSort
+
+
+def map_get(st, row, fld):
+    srt = map_field_sort(row.m, fld)
+    t = z3.Select(_map_arr(st, row.m, fld, srt)[1], row.key)
+    return VInt(t) if srt == I else VStr(None, t)
+
+
+def map_set(st, row, fld, v):
+    srt = map_field_sort(row.m, fld)
+    key, a = _map_arr(st, row.m, fld, srt)
+    st.heap[key] = z3.Store(a, row.key, v.t)
+    hk, ha = _map_arr(st, row.m, "@has." + fld, B)
+    st.heap[hk] = z3.Store(ha, row.key, z3.BoolVal(True))
+
+
+def map_new_row(st, m, keyt):
+    rk, ra = _map_arr(st, m, "@row", B)
+    st.heap[rk] = z3.Store(ra, keyt, z3.BoolVal(True))
+    for fld in VMap.FIELDS.get(m.name, {}):
+        hk, ha = _map_arr(st, m, "@has." + fld, B)
+        st.heap[hk] = z3.Store(ha, keyt, z3.BoolVal(False))
+
+
+def map_row_len(st, row):
+    n = z3.IntVal(0)
+    for fld in VMap.FIELDS.get(row.m.name, {}):
+        n = n + z3.If(map_has_field(st, row, fld), 1, 0)
+    return n
